@@ -498,6 +498,18 @@ func TestC12(t *testing.T) {
 				sig, msg = "C12/left-behind-for-other-bindings", fmt.Sprintf("after one execution, the same script with other bindings (%s) gives %s %s through the shared compilation cache but %s %s when compiled afresh", numgen.EnvString(env2), viaCache.Class, viaCache.Postings, fresh.Class, fresh.Postings)
 			}
 		}
+		if sig == "" && out.Parsed && len(cs.Env.Vars) > 0 && (mode == "typed" || mode == "loose-env" || mode == "revisit") {
+			// "leaves nothing behind": a caller that submits the same request object again (a retry in the same
+			// process) gets the same outcome -- the variable map it handed over is still its own
+			mine := map[string]string{}
+			for k, v := range cs.Env.Vars {
+				mine[k] = v
+			}
+			first, again := runImplVars(text, cs.Env, nil, mine), runImplVars(text, cs.Env, nil, mine)
+			if first.Class != "panic" && again.Class != "panic" && first.Class != again.Class {
+				sig, msg = "C12/request-consumed", fmt.Sprintf("the same request object submitted twice gives %s, then %s (%v): the first execution changed the variable map it was given (%d of %d bindings left)", first.Class, again.Class, firstLine(fmt.Sprint(again.Err)), len(mine), len(cs.Env.Vars))
+			}
+		}
 		if sig == "" && rapid.IntRange(0, 3).Draw(rt, "throughEngine") == 0 {
 			// the same input through Commander.CreateTransaction on a ledger with history
 			engineRuns++
